@@ -47,8 +47,10 @@ class Gen:
         return Call(self.idf(t), I(t, self.lit_val(t) if v is None else v))
 
     # ---- expressions of integer type t over the variables in scope
-    def expr(self, t, scope, depth):
+    def expr(self, t, scope, depth, nocast=False):
         r = self.rng.below(100)
+        if nocast and 72 <= r < 84:
+            r = 30
         vars_t = [x for x, xt in scope if xt == t]
         if depth <= 0 or r < 20:
             if vars_t and self.rng.below(4):
@@ -64,13 +66,14 @@ class Gen:
             d = self.rng.choice([1, 2, 3, 5, 7, 10, 100, tmax(t)])
             return Bin(op, t, self.expr(t, scope, depth - 1), self.opaque_lit(t, min(d, tmax(t))))
         if r < 84 and "cast" in self.feats:
-            pool = self.types if "cast-large" in self.feats else SMALL
+            pool = self.types if ("cast-large" in self.feats and self.types is not None and len(self.types) > len(SMALL)) else SMALL
             if t in LARGE and "cast-large" not in self.feats:
                 pool = []
             t2 = self.rng.choice(pool) if pool else t
             if t2 != t:
                 self.count("cast")
-                return Cast(t2, t, self.expr(t2, scope, depth - 1))
+                # the operand of a cast is never itself a cast: directly nested casts are miscompiled (catalogue: cast-nested)
+                return Cast(t2, t, self.expr(t2, scope, depth - 1, nocast=True))
         if r < 90 and signed(t):
             self.count("neg")
             return Neg(t, self.expr(t, scope, depth - 1))
@@ -128,7 +131,7 @@ class Gen:
                 thn = self.stmts(scope, 1 + self.rng.below(3), depth - 1, in_loop)
                 els = self.stmts(scope, self.rng.below(3), depth - 1, in_loop) if self.rng.below(2) else []
                 out.append(If(self.cond(scope, 2), thn, els))
-            elif r < 62 and depth > 0 and "while" in self.feats:
+            elif r < 62 and depth > 0 and "while" in self.feats and "loops-inline" in self.feats:
                 self.count("while")
                 i = self.fresh("w")
                 n_it = 1 + self.rng.below(5)
@@ -139,7 +142,7 @@ class Gen:
                     body.append(If(Bin("gt", "i32", V(i), I("i32", n_it - 1)), [Break()]))
                 out.append(Let(i, "i32", I("i32", 0)))
                 out.append(While(Bin("lt", "i32", V(i), I("i32", n_it)), *body, Inc("i32", V(i))))
-            elif r < 68 and depth > 0 and "for" in self.feats:
+            elif r < 68 and depth > 0 and "for" in self.feats and "loops-inline" in self.feats and not in_loop:
                 self.count("for")
                 i = self.fresh("f")
                 t = self.rng.choice(["i32", "i64", "u32", "i32"])
@@ -147,7 +150,7 @@ class Gen:
                 a = self.rng.below(5)
                 out.append(Let(lo, t, I(t, a)))
                 out.append(Let(hi, t, I(t, a + self.rng.below(5))))
-                body = self.stmts(scope + [(i, t)], 1 + self.rng.below(2), depth - 1, True) + [Print(V(i))]
+                body = self.stmts(scope + [(i, t)], 1 + self.rng.below(2), 0 if "for-nested" not in self.feats else depth - 1, True) + [Print(V(i))]
                 out.append(For(i, t, V(lo), V(hi), body, incl=self.rng.below(3) == 0))
             elif r < 74 and "struct" in self.feats and self.structs:
                 out += self.struct_block(scope)
@@ -269,6 +272,10 @@ class Gen:
             body = self.stmts_pure(params, rt)
             self.decls.append(Fn(f, params, rt, *body))
             self.fns[f] = (ps, rt)
+        for kind in ("while", "for"):
+            if kind in self.feats:
+                for _ in range(1 + self.rng.below(2)):
+                    self.loop_fn(kind)
         if "recursion" in self.feats and self.rng.below(2):
             t = self.rng.choice(["i32", "i64", "u32", "u64"])
             f = self.fresh("rec")
@@ -299,12 +306,54 @@ class Gen:
                     self.decls.append(Fn(f, [("s", TS(name))], t0, Set(Fld(V("s"), f0), Bin("add", t0, Fld(V("s"), f0), Call(self.idf(t0), I(t0, 1)))), Ret(Fld(V("s"), f0))))
                     self.fns[f] = ([TS(name)], t0)
         body = self.stmts([], 10 + self.rng.below(10), 2)
+        for f, t in getattr(self, "loop_fns", []):
+            for _ in range(1 + self.rng.below(2)):
+                self.used_ids.add(t)
+                body.append(Print(Call(f, I("i32", self.rng.below(7)), Call("id_" + t, I(t, self.lit_val(t))))))
         if getattr(self, "fns_rec", None):
             f, t = self.fns_rec
             self.used_ids.add(t)
             body.append(Print(Call(f, I("i32", 1 + self.rng.below(12)), Call("id_" + t, I(t, 1)))))
         ids = [opaque(t, "id_" + t) for t in sorted(self.used_ids)]
         return Prog(*(ids + self.decls + [Main(*body)]))
+
+    def loop_fn(self, kind):
+        """a small function whose body is one loop over few variables (register pressure kept low: the vendored
+        QBE's register allocator asserts on loops in large functions — finding F23)"""
+        saved = self.types
+        self.types = list(SMALL)          # loops over 128/256-bit values trip the vendored QBE's allocator (F23)
+        try:
+            self._loop_fn(kind)
+        finally:
+            self.types = saved
+
+    def _loop_fn(self, kind):
+        t = self.ty()
+        f = self.fresh("lp")
+        scope = [("acc", t), ("a", t)]
+        step = lambda: Set(V("acc"), Bin(self.rng.choice(["add", "sub", "mul"]), t, V("acc"), self.expr(t, scope, 1)))
+        if kind == "while":
+            body = [step()]
+            if self.rng.below(3) == 0:
+                body.append(If(Bin("eq", "i32", V("i"), I("i32", 1)), [Inc("i32", V("i")), Continue()]))
+            if self.rng.below(3) == 0:
+                body.append(If(self.cond(scope, 0), [Break()]))
+            if self.rng.below(2):
+                body.append(step())
+            loop = [Let("i", "i32", I("i32", 0)), While(Bin("lt", "i32", V("i"), V("n")), *body, Inc("i32", V("i")))]
+            self.count("while")
+        else:
+            it = self.rng.choice(["i32", "i32", "i64", "u32"])
+            body = [step()]
+            if it == t and self.rng.below(2):
+                body.append(Set(V("acc"), Bin("add", t, V("acc"), V("i"))))
+            if self.rng.below(4) == 0:
+                body.append(If(self.cond(scope, 0), [Break()]))
+            loop = [Let("lo", it, I(it, self.rng.below(3))), Let("hi", it, Cast("i32", it, V("n"))) if it != "i32" else Let("hi", it, V("n")),
+                    For("i", it, V("lo"), V("hi"), body, incl=self.rng.below(3) == 0)]
+            self.count("for")
+        self.decls.append(Fn(f, [("n", "i32"), ("a", t)], t, Let("acc", t, V("a")), *loop, Ret(V("acc"))))
+        self.loop_fns = getattr(self, "loop_fns", []) + [(f, t)]
 
     def stmts_pure(self, params, rt):
         """function body without output: a few lets / ifs, then return"""
